@@ -149,8 +149,8 @@ def dynamic_values(run):
     F = rng.normal(size=(n, 2)) * 0.3
     INPUTS = []
 
-    def inp(x):
-        x = np.array(x, copy=True)
+    def inp(x, order="C"):
+        x = np.array(x, copy=True, order=order)
         INPUTS.append(x)
         return x
 
@@ -158,8 +158,8 @@ def dynamic_values(run):
         def __init__(self, a):
             self.a = a
 
-        def copy(self):
-            return inp(self.a)
+        def copy(self, order="C"):
+            return inp(self.a, order)
 
         def __getattr__(self, n):
             return getattr(self.a, n)
@@ -175,29 +175,30 @@ def dynamic_values(run):
     A, L, Q, w, wp, P, U, V, F = (_C(x) for x in (A, L, Q, w, wp, P, U, V, F))
     LT = _C(L.a.T)
     QwQ = _C(Q.a @ np.diag(w.a) @ Q.a.T)
+    ORDER = ["C"]  # memory layout of the 2-D parameter arrays handed to the constructors (toggled to Fortran order below)
     makers = {
         "IdentityMatrix": lambda: M.IdentityMatrix(n), "ScaledIdentityMatrix": lambda s=2.0: M.ScaledIdentityMatrix(s, n),
-        "DiagonalMatrix": lambda: M.DiagonalMatrix(w.copy()), "PositiveDiagonalMatrix": lambda: M.PositiveDiagonalMatrix(wp.copy()),
-        "TriangularMatrix": lambda lower=True: M.TriangularMatrix((L if lower else LT).copy(), lower=lower),
-        "InverseTriangularMatrix": lambda lower=True: M.InverseTriangularMatrix((L if lower else LT).copy(), lower=lower),
-        "TriangularFactoredDefiniteMatrix": lambda sign=1: M.TriangularFactoredDefiniteMatrix(L.copy(), sign=sign, factor_is_lower=True),
-        "TriangularFactoredPositiveDefiniteMatrix": lambda: M.TriangularFactoredPositiveDefiniteMatrix(L.copy()),
-        "DenseDefiniteMatrix": lambda: M.DenseDefiniteMatrix((-P).copy(), is_posdef=False), "DensePositiveDefiniteMatrix": lambda: M.DensePositiveDefiniteMatrix(P.copy()),
-        "DensePositiveDefiniteProductMatrix": lambda: M.DensePositiveDefiniteProductMatrix(V.copy()),
-        "DenseSquareMatrix": lambda: M.DenseSquareMatrix(A.copy()), "InverseLUFactoredSquareMatrix": lambda: M.DenseSquareMatrix(A.copy()).inv,
-        "DenseSymmetricMatrix": lambda: M.DenseSymmetricMatrix(QwQ.copy()), "OrthogonalMatrix": lambda: M.OrthogonalMatrix(Q.copy()),
-        "ScaledOrthogonalMatrix": lambda s=2.0: M.ScaledOrthogonalMatrix(s, Q.copy()), "EigendecomposedSymmetricMatrix": lambda: M.EigendecomposedSymmetricMatrix(Q.copy(), w.copy()),
-        "EigendecomposedPositiveDefiniteMatrix": lambda: M.EigendecomposedPositiveDefiniteMatrix(Q.copy(), wp.copy()),
-        "SoftAbsRegularizedPositiveDefiniteMatrix": lambda c=1.0: M.SoftAbsRegularizedPositiveDefiniteMatrix(QwQ.copy(), c),
-        "SquareBlockDiagonalMatrix": lambda: M.SquareBlockDiagonalMatrix((M.DenseSquareMatrix(A.copy()), M.ScaledIdentityMatrix(2.0, 2))),
-        "PositiveDefiniteBlockDiagonalMatrix": lambda: M.PositiveDefiniteBlockDiagonalMatrix((M.DensePositiveDefiniteMatrix(P.copy()), M.PositiveDiagonalMatrix(wp.copy()))),
-        "DenseRectangularMatrix": lambda: M.DenseRectangularMatrix(V.copy()),
-        "BlockRowMatrix": lambda: M.BlockRowMatrix((M.DenseRectangularMatrix(U.copy()), M.DenseSquareMatrix(A.copy()))),
-        "BlockColumnMatrix": lambda: M.BlockColumnMatrix((M.DenseRectangularMatrix(V.copy()), M.DenseSquareMatrix(A.copy()))),
-        "SquareLowRankUpdateMatrix": lambda sign=1: M.SquareLowRankUpdateMatrix(M.DenseRectangularMatrix(U.copy()), M.DenseRectangularMatrix(V.copy()), M.DenseSquareMatrix(A.copy()), sign=sign),
-        "SymmetricLowRankUpdateMatrix": lambda sign=1: M.SymmetricLowRankUpdateMatrix(M.DenseRectangularMatrix(F.copy()), M.DiagonalMatrix((w + 4).copy()), sign=sign),
-        "PositiveDefiniteLowRankUpdateMatrix": lambda sign=1: M.PositiveDefiniteLowRankUpdateMatrix(M.DenseRectangularMatrix(F.copy()), M.PositiveDiagonalMatrix((wp + 1).copy()), sign=sign),
-        "MatrixProduct": lambda: M.DenseSquareMatrix(A.copy()) @ M.TriangularMatrix(L.copy()),
+        "DiagonalMatrix": lambda: M.DiagonalMatrix(w.copy(order=ORDER[0])), "PositiveDiagonalMatrix": lambda: M.PositiveDiagonalMatrix(wp.copy(order=ORDER[0])),
+        "TriangularMatrix": lambda lower=True: M.TriangularMatrix((L if lower else LT).copy(order=ORDER[0]), lower=lower),
+        "InverseTriangularMatrix": lambda lower=True: M.InverseTriangularMatrix((L if lower else LT).copy(order=ORDER[0]), lower=lower),
+        "TriangularFactoredDefiniteMatrix": lambda sign=1: M.TriangularFactoredDefiniteMatrix(L.copy(order=ORDER[0]), sign=sign, factor_is_lower=True),
+        "TriangularFactoredPositiveDefiniteMatrix": lambda: M.TriangularFactoredPositiveDefiniteMatrix(L.copy(order=ORDER[0])),
+        "DenseDefiniteMatrix": lambda: M.DenseDefiniteMatrix((-P).copy(order=ORDER[0]), is_posdef=False), "DensePositiveDefiniteMatrix": lambda: M.DensePositiveDefiniteMatrix(P.copy(order=ORDER[0])),
+        "DensePositiveDefiniteProductMatrix": lambda: M.DensePositiveDefiniteProductMatrix(V.copy(order=ORDER[0])),
+        "DenseSquareMatrix": lambda: M.DenseSquareMatrix(A.copy(order=ORDER[0])), "InverseLUFactoredSquareMatrix": lambda: M.DenseSquareMatrix(A.copy(order=ORDER[0])).inv,
+        "DenseSymmetricMatrix": lambda: M.DenseSymmetricMatrix(QwQ.copy(order=ORDER[0])), "OrthogonalMatrix": lambda: M.OrthogonalMatrix(Q.copy(order=ORDER[0])),
+        "ScaledOrthogonalMatrix": lambda s=2.0: M.ScaledOrthogonalMatrix(s, Q.copy(order=ORDER[0])), "EigendecomposedSymmetricMatrix": lambda: M.EigendecomposedSymmetricMatrix(Q.copy(order=ORDER[0]), w.copy(order=ORDER[0])),
+        "EigendecomposedPositiveDefiniteMatrix": lambda: M.EigendecomposedPositiveDefiniteMatrix(Q.copy(order=ORDER[0]), wp.copy(order=ORDER[0])),
+        "SoftAbsRegularizedPositiveDefiniteMatrix": lambda c=1.0: M.SoftAbsRegularizedPositiveDefiniteMatrix(QwQ.copy(order=ORDER[0]), c),
+        "SquareBlockDiagonalMatrix": lambda: M.SquareBlockDiagonalMatrix((M.DenseSquareMatrix(A.copy(order=ORDER[0])), M.ScaledIdentityMatrix(2.0, 2))),
+        "PositiveDefiniteBlockDiagonalMatrix": lambda: M.PositiveDefiniteBlockDiagonalMatrix((M.DensePositiveDefiniteMatrix(P.copy(order=ORDER[0])), M.PositiveDiagonalMatrix(wp.copy(order=ORDER[0])))),
+        "DenseRectangularMatrix": lambda: M.DenseRectangularMatrix(V.copy(order=ORDER[0])),
+        "BlockRowMatrix": lambda: M.BlockRowMatrix((M.DenseRectangularMatrix(U.copy(order=ORDER[0])), M.DenseSquareMatrix(A.copy(order=ORDER[0])))),
+        "BlockColumnMatrix": lambda: M.BlockColumnMatrix((M.DenseRectangularMatrix(V.copy(order=ORDER[0])), M.DenseSquareMatrix(A.copy(order=ORDER[0])))),
+        "SquareLowRankUpdateMatrix": lambda sign=1: M.SquareLowRankUpdateMatrix(M.DenseRectangularMatrix(U.copy(order=ORDER[0])), M.DenseRectangularMatrix(V.copy(order=ORDER[0])), M.DenseSquareMatrix(A.copy(order=ORDER[0])), sign=sign),
+        "SymmetricLowRankUpdateMatrix": lambda sign=1: M.SymmetricLowRankUpdateMatrix(M.DenseRectangularMatrix(F.copy(order=ORDER[0])), M.DiagonalMatrix((w + 4).copy(order=ORDER[0])), sign=sign),
+        "PositiveDefiniteLowRankUpdateMatrix": lambda sign=1: M.PositiveDefiniteLowRankUpdateMatrix(M.DenseRectangularMatrix(F.copy(order=ORDER[0])), M.PositiveDiagonalMatrix((wp + 1).copy(order=ORDER[0])), sign=sign),
+        "MatrixProduct": lambda: M.DenseSquareMatrix(A.copy(order=ORDER[0])) @ M.TriangularMatrix(L.copy(order=ORDER[0])),
     }
     variants = {"ScaledIdentityMatrix": dict(s=-3.0), "TriangularMatrix": dict(lower=False), "InverseTriangularMatrix": dict(lower=False),
                 "TriangularFactoredDefiniteMatrix": dict(sign=-1), "ScaledOrthogonalMatrix": dict(s=-1.5), "SoftAbsRegularizedPositiveDefiniteMatrix": dict(c=3.0),
@@ -227,6 +228,16 @@ def dynamic_values(run):
             ok = (a == b) and (hash(a) == hash(b))
             run.ob(tag + "/equal-parameters-compare-and-hash-equal", core.DISCHARGED if ok else core.FAILED, "native-exec", klass="bounded",
                    detail="" if ok else f"two {name} built from equal parameters: == is {a == b}, hashes {'equal' if hash(a) == hash(b) else 'differ'}")
+            # equal parameter values in another memory layout (Fortran-ordered 2-D arrays) are still equal parameters
+            ORDER[0] = "F"
+            try:
+                f = mk()
+            finally:
+                ORDER[0] = "C"
+            okf = (a == f) and (hash(a) == hash(f))
+            run.ob(tag + "/equal-parameters-in-another-memory-layout-compare-and-hash-equal", core.DISCHARGED if okf else core.FAILED, "native-exec", klass="bounded",
+                   detail="" if okf else f"{name} built from the same parameter values in Fortran order: == is {a == f}, hashes {'equal' if hash(a) == hash(f) else 'differ'} "
+                   "(equal objects must hash equal: set / dict lookups would miss)")
             held = arrays(a, set())
             wr = [x for x in mine if x.flags.writeable and any(np.shares_memory(x, h) for h in held)]
             run.ob(tag + "/constructor-arrays-read-only", core.DISCHARGED if not wr else core.FAILED, "native-exec", klass="bounded",
@@ -261,7 +272,8 @@ def dynamic_values(run):
 
 def run(run_, tier):
     from .. import symla
-    run_.assume("A13: hash_array is a function of dtype, shape, strides and bytes; numpy flags.writeable semantics trusted")
+    run_.assume("A13: utils.hash_array as installed (optional xxhash dependency absent) hashes array.tobytes(), i.e. the values in C order: a function of the values only; "
+                "the xxhash branch, which cannot run here, also hashes the strides (equal matrices in different memory layouts would hash unequal there); numpy flags.writeable semantics trusted")
     run_.assume("value-semantics obligations (equality, hashing, copies, read-only parameters) are exercised per class on numeric instances: complete over classes and "
                 "listed options, sampled over values (reported as bounded)")
     for k, v in symla.SHIM_TABLE.items():
